@@ -910,3 +910,76 @@ pub fn run(seed: u64, cases: usize, out: &mut Sink) {
         }
     }
 }
+
+// ---------------------------------------------------------------------------------------------
+// corpus replay: `mverify` protocol lines (third tab-separated column of the corpus file, or bare lines)
+// are parsed back into a `MultiProof` and handed to the real verifier.
+
+fn parse_terminal(s: &str) -> Option<PathProofTerminal> {
+    let parts: Vec<&str> = s.split(':').collect();
+    match parts.as_slice() {
+        ["L", k, v] if k.len() == 64 && v.len() == 64 => {
+            Some(PathProofTerminal::Leaf(LeafData { key_path: unhex32(k), value_hash: unhex32(v) }))
+        }
+        ["T", b] => {
+            let mut bits: BitVec<u8, Msb0> = BitVec::new();
+            if *b != "-" {
+                for c in b.chars() {
+                    bits.push(c == '1');
+                }
+            }
+            if bits.len() > 256 {
+                return None;
+            }
+            Some(mk_terminator(&bits))
+        }
+        _ => None,
+    }
+}
+
+fn parse_mverify(line: &str) -> Option<(usize, Node, MultiProof)> {
+    let f: Vec<&str> = line.split_whitespace().collect();
+    if f.len() != 5 || f[0] != "mverify" || f[2].len() != 64 {
+        return None;
+    }
+    let reg = f[1].parse().ok()?;
+    let root = unhex32(f[2]);
+    let mut paths = Vec::new();
+    if f[3] != "-" {
+        for item in f[3].split('|') {
+            let (t, d) = item.split_once('@')?;
+            paths.push(MultiPathProof { terminal: parse_terminal(t)?, depth: d.parse().ok()? });
+        }
+    }
+    let mut siblings = Vec::new();
+    if f[4] != "-" {
+        for h in f[4].split(',') {
+            if h.len() != 64 {
+                return None;
+            }
+            siblings.push(unhex32(h));
+        }
+    }
+    Some((reg, root, MultiProof { paths, siblings }))
+}
+
+pub fn replay(file: &str, out: &mut Sink) {
+    let text = std::fs::read_to_string(file).unwrap_or_else(|e| panic!("cannot read corpus {file}: {e}"));
+    for (n, l) in text.lines().enumerate() {
+        if l.starts_with('#') || l.trim().is_empty() {
+            continue;
+        }
+        let cols: Vec<&str> = l.split('\t').collect();
+        let (shape, line) = if cols.len() >= 3 { (format!("corpus:{}", cols[1]), cols[2]) } else { ("corpus".to_string(), cols[0]) };
+        match parse_mverify(line) {
+            Some((reg, root, mp)) => {
+                out.mark_case(format!("corpus line {}", n + 1));
+                out.count("corpus_lines");
+                mverify_line(out, reg, &mp, root, &shape);
+                let sig = out.ops.last().unwrap().clone();
+                out.nontrivial(&sig);
+            }
+            None => out.fail(format!("corpus line {} is not a well-formed mverify line", n + 1)),
+        }
+    }
+}
